@@ -26,13 +26,13 @@ def gen_flat_ltp(d):
         f.write('static const opus_uint8 *const vt_flat_ltp_gain[3]={vt_flat_ltp_gain_0,vt_flat_ltp_gain_1,vt_flat_ltp_gain_2};\n')
         f.write('static const opus_uint8 *const vt_flat_ltp_bits[3]={vt_flat_ltp_bits_0,vt_flat_ltp_bits_1,vt_flat_ltp_bits_2};\n')
 
-def vq_ob(cbk, row, nrows, tier, budget=900):
-    return Ob('H1.vq_wmat_ec.sse4_1_vs_c.cbk%d.rows%d_%d' % (cbk, row, row + nrows - 1), 'C15_vq.c', ['silk/VQ_WMat_EC.c', 'silk/x86/VQ_WMat_EC_sse4_1.c', 'silk/lin2log.c'],
-              ['-DCBK=%d' % cbk, '-DROW=%d' % row, '-DNROWS=%d' % nrows, '-DOPUS_X86_MAY_HAVE_SSE4_1', '-DOPUS_X86_MAY_HAVE_SSE2', '-DOPUS_X86_MAY_HAVE_SSE', '-DOPUS_HAVE_RTCD'],
+def vq_ob(cbk, row, nrows, tier, budget=900, dup=False):
+    return Ob(('H1.vq_wmat_ec.sse4_1_vs_c.cbk%d.rows%d_%d' % (cbk, row, row + nrows - 1)) if not dup else ('H1b.vq_wmat_ec.tie_break.cbk%d.row%d_twice' % (cbk, row)), 'C15_vq.c', ['silk/VQ_WMat_EC.c', 'silk/x86/VQ_WMat_EC_sse4_1.c', 'silk/lin2log.c'],
+              ['-DCBK=%d' % cbk, '-DROW=%d' % row, '-DNROWS=%d' % nrows] + (['-DDUPROW'] if dup else []) + [ '-DOPUS_X86_MAY_HAVE_SSE4_1', '-DOPUS_X86_MAY_HAVE_SSE2', '-DOPUS_X86_MAY_HAVE_SSE', '-DOPUS_HAVE_RTCD'],
               unwind=1, inc=['shim_sse'], gen=gen_flat_ltp, drop_checks=['--signed-overflow-check', '--undefined-shift-check'], flags=['--no-signed-overflow-check', '--no-undefined-shift-check'],
               unwindset=['harness:26', 'silk_VQ_WMat_EC_c:%d' % (nrows + 1), 'silk_VQ_WMat_EC_sse4_1:%d' % (nrows + 1)],
               functions=['silk_VQ_WMat_EC_c', 'silk_VQ_WMat_EC_sse4_1'], budget=budget, tier=tier, replay=False,
-              bounds='LTP codebook %d rows %d..%d (case selector), any XX_Q17[25], xX_Q17[5], max_gain_Q7 (int32), subfr_len 40/80' % (cbk, row, row + nrows - 1))
+              bounds=('LTP codebook %d rows %d..%d (case selector), any XX_Q17[25], xX_Q17[5], max_gain_Q7 (int32), subfr_len 40/80' % (cbk, row, row + nrows - 1)) if not dup else ('two-entry codebook holding row %d of LTP codebook %d twice (every input is a tie between the two entries), any XX_Q17[25], xX_Q17[5], max_gain_Q7, subfr_len 40/80' % (row, cbk)))
 
 def obligations():
     L = []
@@ -43,4 +43,6 @@ def obligations():
     # two adjacent rows: the running minimum and the tie-break carried between rows are compared too
     for cbk, row in ((0, 0), (0, 6), (1, 7), (2, 30)):
         L.append(vq_ob(cbk, row, 2, 'thorough', budget=1500))
+    for cbk, row, tier in ((0, 3, 'quick'), (1, 11, 'quick'), (2, 20, 'thorough'), (1, 0, 'thorough')):
+        L.append(vq_ob(cbk, row, 2, tier, dup=True))
     return L
